@@ -293,6 +293,18 @@ CHECKS = {
         "behaviour (type resolution, division by zero, NULL ordering, rounding, identifier folding, infinity literals).",
         "4/C02",
     ),
+    "C15": (
+        "metamorphic runtime monitor: injective renaming of tables and columns, each backend against itself",
+        "Pipelines are built from a name map; for each of ~6 renamings per pipeline (one all-plain control, the others "
+        "mapping one table or column name to an internal scratch / CTE / alias name, a '<column>_tmp_right_col'-style "
+        "derived name, an SQL keyword, a mixed-case name or a name with spaces / punctuation / unicode) the renamed "
+        "pipeline on the renamed inputs must return the renamed original result and must not raise where the original "
+        "returns, on Pandas, Polars and SQLite.",
+        "Trusted: nothing beyond each backend's own original result. Three recorded findings (fixed scratch column names of "
+        "the Pandas and Polars executors, generated CTE names of the SQL generator) are attributed only when the single "
+        "hostile target of the renaming is one of the listed names for that backend.",
+        "4/C15",
+    ),
 }
 
 NOT_BUILT = "check not built yet (build in progress, see DESIGN.md section 8)"
